@@ -81,9 +81,11 @@ word zzPowerModW(register word a, register word b, register word mod,
 	word* powers;	/* [4]powers */
 	// pre
 	ASSERT(mod != 0);
+	// a <- a \mod mod
+	a %= mod;
 	// b == 0?
 	if (b == 0)
-		return 1;
+		return WORD_1 % mod;
 	// раскладка stack
 	powers = (word*)stack;
 	// powers <- малые нечетные степени a
